@@ -8,6 +8,5 @@ for i in range(1, 21):
     pid = 'C%02d' % i
     d = json.load(open(os.path.join(HERE, 'evidence', pid + '.json')))
     ri = d['coverage'].get('rule_instances') or {}
-    nf = d['coverage'].get('functions')
-    nf = len(nf) if isinstance(nf, list) else nf
+    nf = len(d['coverage'].get('functions_analysed') or [])
     print('| %s | %s | %s | %s |' % (pid, d.get('tier'), ', '.join('%s %s' % (k.split('.', 1)[1], v) for k, v in sorted(ri.items())), nf))
